@@ -423,3 +423,38 @@ PROPS["C03"] = {
     "quick": {"scale": 1, "shards": 16, "timeout_s": 1500},
     "thorough": {"scale": 6, "shards": 16, "timeout_s": 7200},
 }
+
+# temporary entry added by the C15 builder (lead: replace/adjust as needed)
+PROPS["C15"] = {
+    "pkg": "c15",
+    "level": "exploration",
+    "rule": ("per case: scheme/variant x curve/hash x key class {drawn, 1, 2, order-1, library KeyGen} x message class {empty where "
+             "allowed, 1 B, block-boundary lengths 55/56/63/64/65/111/112/128, long <= 4 KiB, all-zero, all-0xff} x ONE alteration of one "
+             "component. ECDSA (k256, p256, pallas, vesta x SHA-1/224/256/384/512, SHA3-256, BLAKE2b-256; RFC 6979 on P-256): sign -> "
+             "library verify and the textbook equation + SEC 1 recovery in the math/big curve model (and crypto/ecdsa on elliptic.P256()) "
+             "accept; the documented equivalence class {(r,s,v), (r,n-s,v^1), both without v} is accepted by the default verifier and "
+             "exactly its low-S members by VerifyNonMalleably; Normalise (low-S, v adjusted, idempotent, validity kept); RecoverPublicKey for "
+             "both forms; 19 alteration classes of message / r / s / v / key (with and without v) rejected by all verifiers; differential: "
+             "(r,s,v) made in the reference model (edge nonces, mismatched key / message, edge and random pairs) get the same verdict from "
+             "library, model and crypto/ecdsa. BIP-340: library signature == reference signer of the BIP text, verdict == reference verifier "
+             "on 25 wire- and object-level alteration classes, BatchVerify on 1-5 triples. Configurable Schnorr over k256 / p256 / pallas / "
+             "vesta / edwards25519 prime subgroup / BLS12-381 G1 x 5 hashes x sign x byte order x parity callback: challenge recomputed as "
+             "H(enc(R) || enc(P) || m) with independent point encoders, group equation in the model, 20 alteration classes incl. a forgery "
+             "that relies on a supplied challenge. Mina: group equation in the model with the library's Poseidon challenge, even-y R, wire "
+             "round trip, 20 alteration classes modulo ROInput packing. BLS short / long keys x {Basic, MessageAugmentation, POP}: pk = [sk]G, "
+             "sig = [sk]H(m), PoP and aggregation recomputed in the model byte for byte; verdict expected by construction == harness "
+             "recomposition of CoreVerify / PopVerify / CoreAggregateVerify (draft DSTs typed in, library pairing) == library, for single "
+             "signatures (17 classes incl. identity key / signature, key + cofactor-torsion point, PoP under the message DST, DST and "
+             "mode mismatch) and aggregates of 1-6 signers x {distinct, equal, one duplicate message} x 18 classes (dropped / foreign "
+             "signer, identity / out-of-subgroup key, swapped keys or messages, wrong / missing proofs, duplicate message under Basic), "
+             "BatchSign / AggregateSign. Pinned vectors: BIP-340 (19), RFC 6979 A.2.5 (10), o1js Mina legacy (18), Ethereum BLS (54). "
+             "Non-trivial: every altered case and every aggregate; distinct = (scheme, variant, curve, hash, alteration class, signer count)."),
+    "assumptions": COMMON_ASSUME + [
+        "vlib/refcurve (math/big curve model, textbook ECDSA, BIP-340 from the BIP text, point encoders) is the independent verifier; the library's Pasta curves use the Mina generators (1, y), typed in from the Mina documentation",
+        "Mina: no independent Poseidon - the challenge is the library's, the group equation and the published o1js vectors are independent",
+        "BLS: no second pairing or BLS12-381 hash-to-curve offline - verdicts are expected by construction and cross-checked by a harness recomposition that uses the library's HashWithDst and MultiPair (C19 / C14 own those); scalar multiplications, encodings and aggregation are recomputed in the model",
+    ],
+    "env": {"GOMAXPROCS": "2", "GOGC": "400"},
+    "quick": {"scale": 1, "shards": 16, "timeout_s": 900},
+    "thorough": {"scale": 10, "shards": 16, "timeout_s": 5400},
+}
